@@ -17,6 +17,8 @@ func init() {
 			"parallel fetches and defer groups use a plain errgroup.Group (siblings are never cancelled) that is joined on every path; a failed single-flight leader always releases its followers. " +
 			"It does not decide that unaffected data is identical nor that requests under fault are a subset of the fault-free requests (value level).",
 		Mutants: []Mutant{
+			{Name: "only the first target of a de-duplicated entity is tainted (seeded change C07-12)", File: loaderGo, Rule: "C07-R7", Key: "taint-covers-merge-target:target",
+				Old: "\t\t\t\tif slices.Contains(taintedIndices, batchIndex) {\n\t\t\t\t\tl.taintedObjs.add(target)\n\t\t\t\t}\n\t\t\t}\n", New: "\t\t\t}\n\t\t\tif slices.Contains(taintedIndices, batchIndex) {\n\t\t\t\tl.taintedObjs.add(targets[0])\n\t\t\t}\n"},
 			{Name: "failed subgraph loads stay in the in-flight table (seeded change C07-13)", File: "v2/pkg/engine/resolve/subgraph_request_singleflight.go", Rule: "C07-R6", Key: "SubgraphRequestSingleFlight.Finish/removed-before-close",
 				Old: "\tshard.items.Delete(item.SFKey)\n\tclose(item.loaded)\n", New: "\tif len(item.response) == 0 {\n\t\tclose(item.loaded)\n\t\treturn\n\t}\n\tshard.items.Delete(item.SFKey)\n\tclose(item.loaded)\n"},
 			{Name: "empty body merged as data", File: loaderGo, Rule: "C07-R1", Key: "has-body",
@@ -436,6 +438,7 @@ func runC07(r *fw.Run) {
 	r.Rule("C07-R6", "the single-flight leader in loadByContext reaches Finish(item) exactly once on every exit, so a failed load always releases the followers (gateway still returns promptly); Finish removes the item from the in-flight table before the wake-up on every path (a failed load never poisons later identical requests)")
 	checkLoadByContextFinish(r, "C07-R6")
 	checkRemovedBeforeClose(r, "C07-R6", false)
+	c07TaintEveryMergeTarget(r)
 }
 
 func enclosingBlock(stack []ast.Node) *ast.BlockStmt {
@@ -557,4 +560,65 @@ func varDefinedByIndexOf(fi *fw.FuncInfo, obj types.Object, name string) bool {
 		return true
 	})
 	return ok
+}
+
+// c07TaintEveryMergeTarget (R7, added after a seeded change hoisted the taint check out of the per-target loop): in
+// mergeResult every object that entity data is merged into is also the object the taint check marks, inside the same block
+// (per target of a de-duplicated batch, per item of a plain batch, the single item).
+func c07TaintEveryMergeTarget(r *fw.Run) {
+	p := r.Prog
+	r.Rule("C07-R7", "in mergeResult every object that receives merged entity data is the object handed to taintedObjs.add under the taint test in the same block (every target of a de-duplicated batch, not just the first)")
+	fi := p.Func("resolve", "Loader.mergeResult")
+	if fi == nil {
+		r.Error("C07-R7: Loader.mergeResult not found")
+		return
+	}
+	info := fi.Info()
+	n := 0
+	var walkBlock func(b *ast.BlockStmt)
+	walkBlock = func(b *ast.BlockStmt) {
+		// merges and taint marks whose innermost enclosing loop/function block is b (ifs are transparent)
+		var merges, taints []ast.Expr
+		var mergePos []ast.Node
+		var visit func(nd ast.Node)
+		visit = func(nd ast.Node) {
+			ast.Inspect(nd, func(m ast.Node) bool {
+				switch x := m.(type) {
+				case *ast.ForStmt:
+					walkBlock(x.Body)
+					return false
+				case *ast.RangeStmt:
+					walkBlock(x.Body)
+					return false
+				case *ast.FuncLit:
+					return false
+				case *ast.CallExpr:
+					if fn := fw.Callee(info, x); fn != nil && fn.Name() == "MergeValuesWithPath" && fn.Pkg() != nil && strings.HasSuffix(fn.Pkg().Path(), "astjson") && len(x.Args) >= 3 {
+						merges = append(merges, x.Args[1])
+						mergePos = append(mergePos, x)
+					}
+					if sel, ok := ast.Unparen(x.Fun).(*ast.SelectorExpr); ok && sel.Sel.Name == "add" && len(x.Args) == 1 && fw.IsFieldSel(info, sel.X, "resolve", "Loader", "taintedObjs") {
+						taints = append(taints, x.Args[0])
+					}
+				}
+				return true
+			})
+		}
+		for _, st := range b.List {
+			visit(st)
+		}
+		for i, m := range merges {
+			n++
+			ok := false
+			for _, t := range taints {
+				if fw.ExprKey(info, t) == fw.ExprKey(info, m) {
+					ok = true
+				}
+			}
+			r.Check(ok, "C07-R7", "Loader.mergeResult/taint-covers-merge-target:"+types.ExprString(m), p.Pos(mergePos[i].Pos()), "the merge target "+types.ExprString(m)+" is the object the taint check marks",
+				"entity data is merged into "+types.ExprString(m)+" but the taint check in the same block marks another object (or none): an entity whose required fields came back with errors is not marked for every parent it was merged into, and a dependent fetch sends a fabricated representation for the unmarked ones (a request the fault-free run would never send)")
+		}
+	}
+	walkBlock(fi.Decl.Body)
+	r.Expect("C07-R7", "merge sites in mergeResult", n, 3)
 }
